@@ -147,6 +147,9 @@ def op_misc(p):
     if p["rebase"] or p.get("rebase_w"):
         opts.append((1, st.tuples(st.just("rebase"), st.integers(0, 20), st.integers(0, 20), st.sampled_from([None, 0, 1]))))
     opts.append((1, st.tuples(st.just("feed"), st.sampled_from([600, 1200, 2400]))))
+    if p.get("posupd", True):
+        # OctoPrint publishes the printer's M114 answer (on a pause, on request) - the plugin has no business with it
+        opts.append((1, st.just(("posupd",))))
     return weighted(opts)
 
 
@@ -462,6 +465,10 @@ class Renderer(object):  # pylint: disable=too-many-instance-attributes
             if not self.pr.abs:
                 self.g("G90")
             self.op(("mv", "grid", 0, i, i, mask, None, 0, None, "G1"))
+        elif k == "posupd":
+            if pr.x is not None:
+                self.prog.append(["event", "POSITION_UPDATE", {"x": round(pr.logical("x"), 4), "y": round(pr.logical("y"), 4), "z": round(pr.logical("z"), 4),
+                                                              "e": round(pr.e / pr.u, 4), "t": 0, "f": 1500.0}])
         elif k == "again":
             last = self.prog[-1] if self.prog else None
             if last is not None and last[0] == "g" and last[1].startswith(("G0 ", "G1 ")) and any(w in last[1] for w in (" X", " Y", " Z")):
